@@ -23,7 +23,7 @@ V, L, B = A.var, A.lit_i, A.bin_
 
 def library():
     s0 = A.struct("S0", [("a", INT), ("b", FLOAT)])
-    gl = [("gi", INT), ("gf", FLOAT), ("ga", A.arr(INT, [3])), ("gs", s0), ("gv", A.vec("float", 2))]
+    gl = [("gi", INT), ("gf", FLOAT), ("ga", A.arr(INT, [3])), ("gs", s0), ("gv", A.vec("float", 2)), ("gb", A.arr(INT, [3])), ("gt", s0)]
     fs = [
         A.func("bump", [("a", INT)], INT, A.block([A.estmt(A.asg(V("gi"), B("+", V("gi"), V("a")))), A.estmt(A.asg(V("gf"), B("+", V("gf"), A.lit_f(1, 1)))), A.ret(V("gi"))]), True),
         A.func("loc", [("a", INT)], INT, A.block([A.decl("c", INT), A.decl("t", A.arr(INT, [2])), A.estmt(A.asg(V("c"), B("+", V("c"), V("a")))),
@@ -44,6 +44,17 @@ def library():
         A.func("sumto", [("n", INT)], INT, A.block([A.if_(B("<=", V("n"), L(0)), A.block([A.ret(L(0))])), A.decl("keep", INT, B("*", V("n"), L(2))),
                                                     A.decl("sub", INT, A.call("sumto", [B("-", V("n"), L(1))])), A.estmt(A.asg(V("gi"), B("+", V("gi"), V("keep")))),
                                                     A.ret(B("+", V("keep"), V("sub")))]), True),
+        # a call without arguments that writes a global, between a store to that global and a load of it
+        A.func("inc10", [], INT, A.block([A.estmt(A.asg(V("gi"), B("+", V("gi"), L(10)))), A.ret(V("gi"))])),
+        A.func("stale", [("a", INT)], INT, A.block([A.estmt(A.asg(V("gi"), V("a"))), A.estmt(A.call("inc10", [])), A.estmt(A.asg(V("gf"), V("gi"))), A.ret(V("gi"))]), True),
+        # aggregates returned by a call and stored: the receiver owns a copy (a later write to the source does not show)
+        A.func("getga", [], A.arr(INT, [3]), A.block([A.ret(V("ga"))])),
+        A.func("getgs", [], s0, A.block([A.ret(V("gs"))])),
+        A.func("pick", [("a", INT)], INT, A.block([A.estmt(A.asg(V("gb"), A.call("getga", []))), A.estmt(A.asg(V("gt"), A.call("getgs", []))),
+                                                   A.estmt(A.asg(A.idx(V("ga"), L(1)), B("+", A.idx(V("ga"), L(1)), V("a")))),
+                                                   A.estmt(A.asg(A.mem(V("gs"), "a"), B("+", A.mem(V("gs"), "a"), V("a")))),
+                                                   A.decl("t", A.arr(INT, [3]), A.call("getga", [])), A.estmt(A.asg(A.idx(V("t"), L(2)), L(77))),
+                                                   A.ret(B("+", B("+", A.idx(V("gb"), L(1)), A.mem(V("gt"), "a")), A.idx(V("ga"), L(2))))]), True),
     ]
     prog = A.prog(gl, fs, [s0])
     init = {n: A.enc(A.zero_py(t), t) for n, t in gl}
@@ -55,27 +66,28 @@ def library():
         {"k": "invoke", "f": "early", "args": {"a": A.enc(0, INT)}},
         {"k": "invoke", "f": "copyarr", "args": {"a": A.enc(3, INT)}},
         {"k": "invoke", "f": "sumto", "args": {"n": A.enc(3, INT)}},
+        {"k": "invoke", "f": "stale", "args": {"a": A.enc(2, INT)}},
+        {"k": "invoke", "f": "pick", "args": {"a": A.enc(6, INT)}},
         {"k": "set", "g": "gi", "v": A.enc(7, INT)},
         {"k": "set", "g": "ga", "v": A.enc([1, 2, 3], A.arr(INT, [3]))},
     ]
     return prog, init, ops
 
 
-_PROGRAM = None
+_PROGRAM = {}
 
 
 def replay(job):
-    hists, src, init = job
-    global _PROGRAM
-    if _PROGRAM is None:
-        st, r = common.compile_source(src)
+    hists, src, init, opt = job
+    if opt not in _PROGRAM:
+        st, r = common.compile_source(src, {"optimize": opt})
         if st != "ok":
-            return [("library-rejected", f"the compiler refuses the library program ({r})", {"source": src})]
-        _PROGRAM = A.link(r)
+            return [("library-rejected", f"the compiler refuses the library program (optimize={opt}: {r})", {"source": src})]
+        _PROGRAM[opt] = A.link(r)
     from nsl import VM
     out = []
     for hist in hists:
-        vms = [VM.VirtualMachine(_PROGRAM) for _ in range(2)]
+        vms = [VM.VirtualMachine(_PROGRAM[opt]) for _ in range(2)]
         known = [{g: v for g, v in init.items()} for _ in range(2)]          # prescribed globals of each VM (spec values)
         for vm in vms:
             for g, v in init.items():
@@ -87,7 +99,7 @@ def replay(job):
             desc = (f"vm{e['vm']}.Invoke({op['f']}, {({k: A.dec(x) for k, x in op['args'].items()})})" if op["k"] == "invoke"
                     else f"vm{e['vm']}.SetGlobal({op['g']}, {A.dec(op['v'])})")
             trail.append(desc)
-            case = {"history": list(trail), "failing_operation": step_no + 1}
+            case = {"history": list(trail), "failing_operation": step_no + 1, "optimize": opt}
             if e["st"] in ("ood", "fuel", "ill", "noreturn"):
                 break
             if op["k"] == "set":
@@ -152,7 +164,7 @@ def run(ctx, args):
     if len(long_h) < num // 2:
         raise common.Machinery(f"simulation produced only {len(long_h)} complete histories")
     allh = hists + long_h
-    jobs = [(allh[i:i + 200], src, init) for i in range(0, len(allh), 200)]
+    jobs = [(allh[i:i + 200], src, init, opt) for opt in (False, True) for i in range(0, len(allh), 200)]
     with mp.Pool(16) as pool:
         results = pool.map(replay, jobs)
     counts = {}
@@ -168,9 +180,9 @@ def run(ctx, args):
     samples = [[(f"vm{e['vm']}", e["op"].get("f", "set " + e["op"].get("g", "")), e["st"], semrun.show_spec(e["res"])) for e in h] for h in (hists[777 % len(hists)], long_h[0])]
     return common.finish(
         ctx, level="model_checking", evaluations=len(allh), distinct_nontrivial=both,
-        rule=f"TLC explores all {len(hists)} histories of {depth} host operations over 2 VMs x 9 operations (7 invocations touching scalar, array, struct and vector "
-             f"globals and fresh aggregate locals; 2 SetGlobal) and {len(long_h)} random histories of {sdepth} operations (simulation mode, seed {ctx.seed + 1}); every "
-             "history is replayed on two real VirtualMachine objects of one linked Program; after each operation the result and every global of both VMs "
+        rule=f"TLC explores all {len(hists)} histories of {depth} host operations over 2 VMs x {len(ops)} operations ({len(ops) - 2} invocations touching scalar, array, struct and vector "
+             f"globals, fresh aggregate locals, a call that writes a global between a store and a load of it, aggregates returned by calls; 2 SetGlobal) and {len(long_h)} random histories of {sdepth} operations (simulation mode, seed {ctx.seed + 1}); every "
+             "history is replayed on two real VirtualMachine objects of one linked Program, compiled without and with optimisation; after each operation the result and every global of both VMs "
              "are compared. distinct_nontrivial = histories that operate on both VMs.",
         samples=samples, exhaustive=True, traces_validated=counts.get("agree", 0),
         assumptions=["host values are deep-copied by the driver, so aliasing introduced by the host cannot be blamed on the VM",
